@@ -4,7 +4,8 @@
    (uint16 = w16, int16 = s16 of a wrapped value, uint8 = w8, uint32 = w32, uint64 = w64).
    Every buffer index expression is a checked access: out of range => Panic.
    Scope: len(buffer) is a power of two <= 32768 (the code masks with len-1; for other sizes the
-   mask is not a modulus and the model declines the case, see [supported]). *)
+   mask is not a modulus and the model declines the case, see [supported]).
+   Describes /repo after fix 9dc1449 (the flush test compares int(relPos) with len(buffer)). *)
 From GVL Require Import NList Wire Wrap.
 Open Scope Z_scope.
 
@@ -97,7 +98,7 @@ Definition reorder (b : buffer) (a neg last : Z) (p : pkt) : ro :=
       | None => RPanic
       end
     else RO b a neg' [] 0 KBehind
-  else if s16 (w16 B) <=? relPos then       (* relPos >= int16(len(rr.buffer)) *)
+  else if B <=? relPos then                 (* int(relPos) >= len(rr.buffer)  (fix 9dc1449) *)
     match count_loop b B a 0 b 1, collect_loop b B a 0 b [] with
     | Some n, Some (b', acc) =>
         (* ret := make([]*rtp.Packet, n); ret[pos] = pkt with pos = len(acc) *)
